@@ -27,6 +27,8 @@ import (
 
 var curWorld *World // the world whose controller is running (one scenario at a time)
 
+type tunnelStateKey struct{}
+
 type Scenario struct {
 	Name    string
 	Cfg     Config
@@ -295,8 +297,38 @@ func (w *World) s2c(t *tunnelState) *gpipe {
 }
 
 // ---------- actions ----------
-func (w *World) openTunnel(m map[string]string) {
+func (w *World) openTunnel(m map[string]string) { w.openTunnelOpt(m, true) }
+
+// free-running variants (no bubble)
+func (w *World) openTunnelFree(md, peer string) { w.openTunnelOpt(map[string]string{"md": md, "peer": peer}, false) }
+
+func (w *World) waitChannel(t int, d time.Duration) grpc.ClientConnInterface {
+	deadline := time.Now().Add(d)
+	for time.Now().Before(deadline) {
+		w.mu.Lock()
+		var ch grpctunnel.TunnelChannel
+		ok := false
+		if t < len(w.tunnels) {
+			ts := w.tunnels[t]
+			ch = ts.ch
+			ok = ch != nil && (w.cfg.Mode != "fwd" || ts.startRet)
+		}
+		w.mu.Unlock()
+		if ok {
+			return ch
+		}
+		time.Sleep(time.Millisecond)
+	}
+	return nil
+}
+
+func (w *World) openTunnelOpt(m map[string]string, settle bool) {
+	ts := &tunnelState{peer: m["peer"]}
+	w.mu.Lock()
 	n := len(w.tunnels)
+	ts.n = n
+	w.tunnels = append(w.tunnels, ts)
+	w.mu.Unlock()
 	ctx := context.Background()
 	md := decMD(m["md"])
 	if md == nil {
@@ -310,11 +342,10 @@ func (w *World) openTunnel(m map[string]string) {
 	} else {
 		ctx, cancel = context.WithCancel(ctx)
 	}
-	ts := &tunnelState{n: n, openCtx: ctx, cancel: cancel}
+	ctx = context.WithValue(ctx, tunnelStateKey{}, ts)
 	w.mu.Lock()
-	w.tunnels = append(w.tunnels, ts)
+	ts.openCtx, ts.cancel = ctx, cancel
 	w.mu.Unlock()
-	w.stub.peerAddr = m["peer"]
 	{
 		eff := md.Copy()
 		adv := true
@@ -335,14 +366,7 @@ func (w *World) openTunnel(m map[string]string) {
 		}
 		w.logf("stim kind=open t=%d md=%s peer=%s", n, encMD(eff), encStr(pa))
 	}
-	nlinks := len(w.links)
-	setLink := func() {
-		w.mu.Lock()
-		if len(w.links) > nlinks && ts.link == nil {
-			ts.link = w.links[nlinks]
-		}
-		w.mu.Unlock()
-	}
+	setLink := func() {}
 	cfg := w.cfg
 	switch {
 	case cfg.Mode == "fwd" && !cfg.RawClient:
@@ -413,8 +437,20 @@ func (w *World) openTunnel(m map[string]string) {
 			}
 		}()
 	}
-	synctest.Wait()
-	setLink()
+	if settle {
+		synctest.Wait()
+		setLink()
+	} else {
+		for i := 0; i < 2000; i++ {
+			w.mu.Lock()
+			l := ts.link
+			w.mu.Unlock()
+			if l != nil {
+				break
+			}
+			time.Sleep(100 * time.Microsecond)
+		}
+	}
 }
 
 func methodName(shape string, r int, m map[string]string) string {
